@@ -1,4 +1,5 @@
 import BS.Properties.C09
+import BS.Properties.C09t
 import BS.Proofs.Probe
 #print axioms BS.KV.foldMap_strictSorted
 #print axioms BS.KV.foldMap_perm
@@ -6,3 +7,13 @@ import BS.Proofs.Probe
 #print axioms BS.KV.spill_runs_spec
 #print axioms BS.KV.threshold_lt_cap
 #print axioms BS.Probe.tri_inj
+#print axioms BS.Table.pidx_inj
+#print axioms BS.Table.pidx_surj
+#print axioms BS.Table.probe_spec
+#print axioms BS.Table.insert_spec
+#print axioms BS.Table.repr_insert
+#print axioms BS.Table.rehash_spec
+#print axioms BS.Table.combine1_spec
+#print axioms BS.Table.combineAll_spec
+#print axioms BS.Table.combining_frame_spec
+#print axioms BS.Table.probe_recurrence
